@@ -72,3 +72,14 @@ package morton
 //@   prelude morton
 //@   requires x <= 0xFFFFFFFF && y <= 0xFFFFFFFF
 //@   ensures interleave(x, y) % 2 == x % 2 && (interleave(x, y) / 2) % 2 == y % 2
+//@
+//@ lemma[C17,C02] zero_key(x BV64)
+//@   mode bv
+//@   prelude morton
+//@   ensures interleave(0, 0) == 0
+//@
+//@ lemma[C17,C02] key_bound(x BV64, y BV64)
+//@   mode bv
+//@   prelude morton
+//@   requires x <= 0x7FFFFFFF && y <= 0x7FFFFFFF
+//@   ensures interleave(x, y) <= 0x3FFFFFFFFFFFFFFF
